@@ -502,7 +502,8 @@ Definition prec_eqb (a b : prec) : bool :=
   && (let '(y, mo, d, h, mi) := p_civil a in let '(y', mo', d', h', mi') := p_civil b in
       Z.eqb y y' && Z.eqb mo mo' && Z.eqb d d' && Z.eqb h h' && Z.eqb mi mi')
   && Qeq_bool (dec_toQ (p_sec a)) (dec_toQ (p_sec b))
-  && all2 (fun x y => String.eqb (fst x) (fst y) && dec_eqb (snd x) (snd y)) (p_vals a) (p_vals b).
+  && Nat.eqb (length (p_vals a)) (length (p_vals b))
+  && forallb (fun x => match alookup (fst x) (p_vals b) with Some d => dec_eqb (snd x) d | None => false end) (p_vals a).
 
 Definition time_cols_eqb (a b : cols) : bool :=
   all2 (fun x y : string * list Q => String.eqb (fst x) (fst y) && all2 Qeq_bool (snd x) (snd y)) (c_time a) (c_time b).
